@@ -700,7 +700,9 @@ fn setup_space_list_check(
 
                 let is_value = left_node.definition.is_value_like();
                 let is_group_value = left_node.definition.is_group_like() && last_left != current_group;
-                if is_value || is_group_value {
+                // an expression ending in a unary suffix is complete as well
+                let is_suffix_value = left_node.secondary_definition == SecondaryDefinition::UnarySuffix;
+                if is_value || is_group_value || is_suffix_value {
                     trace!(
                         "Value-like definition {:?} found. Will check next token for value-like to make list",
                         left_node.definition
@@ -776,7 +778,12 @@ fn check_composition(
 // tokens separated only by whitespace or annotations must still compose,
 // except where the separation is what forms a list: a value (or the end of one)
 // followed by the start of a value
-fn check_separated_composition(previous: SecondaryDefinition, current: SecondaryDefinition, token: &LexerToken) -> Result<(), CompilerError> {
+fn check_separated_composition(
+    previous: SecondaryDefinition,
+    current: SecondaryDefinition,
+    check_for_list: bool,
+    token: &LexerToken,
+) -> Result<(), CompilerError> {
     let ends_value = match previous {
         SecondaryDefinition::Value | SecondaryDefinition::Identifier | SecondaryDefinition::EndGrouping | SecondaryDefinition::UnarySuffix => true,
         _ => false,
@@ -786,11 +793,12 @@ fn check_separated_composition(previous: SecondaryDefinition, current: Secondary
         _ => false,
     };
 
-    if ends_value && starts_value {
+    // only whitespace after a value sets the list flag, an annotation alone does not
+    if ends_value && starts_value && check_for_list {
         return Ok(());
     }
 
-    check_composition(previous, current, true, token)
+    check_composition(previous, current, check_for_list, token)
 }
 
 const EMPTY_TOKENS: &[LexerToken] = &[];
@@ -910,7 +918,7 @@ pub fn parse(lex_tokens: &Vec<LexerToken>) -> Result<ParseResult, CompilerError>
             SecondaryDefinition::Whitespace | SecondaryDefinition::Annotation => separated = true,
             _ => {
                 if separated {
-                    check_separated_composition(previous_significant_def, secondary_definition, token)?;
+                    check_separated_composition(previous_significant_def, secondary_definition, check_for_list, token)?;
                 }
                 previous_significant_def = secondary_definition;
                 separated = false;
@@ -1311,7 +1319,7 @@ pub fn parse(lex_tokens: &Vec<LexerToken>) -> Result<ParseResult, CompilerError>
     // previous is def of last node
     check_composition(previous_second_def, SecondaryDefinition::None, check_for_list, &last_token)?;
     if separated {
-        check_separated_composition(previous_significant_def, SecondaryDefinition::None, &last_token)?;
+        check_separated_composition(previous_significant_def, SecondaryDefinition::None, check_for_list, &last_token)?;
     }
 
     // also make sure all groups have been closed
